@@ -155,4 +155,29 @@ theorem writeZip_replicate {β : Type} (l : List β) (n : Nat) (d : β) :
     | zero => simp [writeZip]
     | succ n => simp [writeZip, List.replicate_succ, ih n]
 
+/-- after the length assert the zip loop is `mapM` over the rows: the buffer content is irrelevant -/
+theorem zipWrite_eq_mapM {R β : Type} (f : R → Option β) (rows : List R) (y : List β)
+    (hl : y.length = rows.length) : zipWrite f rows y = rows.mapM f := by
+  induction rows generalizing y with
+  | nil =>
+    cases y with
+    | nil => rfl
+    | cons _ _ => simp at hl
+  | cons r rs ih =>
+    cases y with
+    | nil => simp at hl
+    | cons y0 ys =>
+      have := ih ys (by simpa using hl)
+      cases hr : f r with
+      | none => simp [zipWrite, hr, List.mapM_cons]
+      | some v =>
+        simp only [zipWrite, hr, this, List.mapM_cons]
+        cases rs.mapM f <;> rfl
+
+theorem zipInplace_eq_mapM {R β : Type} (f : R → Option β) (rows : List R) (y : List β)
+    (hl : y.length = rows.length) : zipInplace f rows y = rows.mapM f := by
+  unfold zipInplace
+  simp only [hl, ne_eq, not_true_eq_false, if_false]
+  exact zipWrite_eq_mapM f rows y hl
+
 end LinfaSpec.Predict
